@@ -465,23 +465,35 @@ def run(ctx):
         for (P, q, t, nt) in plan:
             par_by_P[P], tc = gen_par(ctx, ctx.scale(q, t), P, ctx.scale(nt, 3))
             trig_cases += tc
+    import time
+    tm = {}; t0 = time.time()
     allc = seq + [c for P in sorted(par_by_P) for c in par_by_P[P]] + trig_cases
     cf = fw.write_cases(ctx, "c06.cases", [c["line"] for c in allc])
     rcm, model, _, errm = fw.run_model(ctx, cf)
+    tm["model"] = round(time.time() - t0, 1)
     if rcm != 0: ctx.signal("K", "modeldriver", "model driver exited with %s: %s" % (rcm, errm[-400:]))
     if seq:
+        t0 = time.time()
         impl, crashed = fw.run_impl_lines(ctx, "drv_spgemm", [c["line"] for c in seq], nprocs=0, name="c06seq")
+        tm["seq_impl"] = round(time.time() - t0, 1); t0 = time.time()
         for c in seq: judge_seq(ctx, c, impl, model)
+        tm["seq_judge"] = round(time.time() - t0, 1)
     for P in sorted(par_by_P):
         cs = par_by_P[P]
         if not cs: continue
+        t0 = time.time()
         impl, crashed = fw.run_impl_lines(ctx, "drv_spgemm", [c["line"] for c in cs], nprocs=P, name="c06par%d" % P,
                                           timeout=ctx.scale(120, 600), max_restarts=6)
+        tm["P%d_impl" % P] = round(time.time() - t0, 1); t0 = time.time()
         for c in cs: judge_par(ctx, c, impl, model)
+        tm["P%d_judge" % P] = round(time.time() - t0, 1)
     # cases of the 'split' class (open finding init_matrix_deadlock): one launch each, short timeout (the symptom is a hang)
+    t0 = time.time()
     for c in trig_cases:
         impl, crashed = fw.run_impl_lines(ctx, "drv_spgemm", [c["line"]], nprocs=c["P"], name="c06trig_" + c["cid"], timeout=8, max_restarts=0)
         judge_par(ctx, c, impl, model)
+    tm["split_class_launches"] = round(time.time() - t0, 1)
+    ctx.notes.append("phase seconds: %s" % tm)
 
 # ----------------------------------------------------------------------------------------------------------------
 def case_from_line(line):
